@@ -347,6 +347,18 @@ EXPRS_SMALL = ["x", "y + 1.0", "min(x, y)", "x if a2 else y", "max([y, z])", "ma
 CONDS_SMALL = ["a0", "not a1", "a0 and a1", "x > y", "a1 or a2", "not x >= y", "x != z", "a0 and not a1 and a2", "a0 or (a1 and a2)"]
 CONDS_TINY = ["a0", "not a1", "x > y", "a1 or a2"]
 EXPRS_TINY = ["x", "y + 1.0", "min(max(x, y), z)", "x if a2 else z"]
+# constructs beyond the restricted style that rules could plausibly use: membership tests, identity tests, chained comparisons,
+# and / or on numbers used as VALUES (Python returns an operand), arithmetic on Booleans, conversions
+CONDS_EXTRA = [
+    "x in (y, z)", "x not in (y, z)", "x in [y, 2.0]", "x in (0.0, 2.0)", "x not in [0.0, 3.0]", "y in (x,)", "a0 in (a1, a2)", "not x in (y, z)",
+    "(x in (y, z)) and a0", "x is None", "x is not None", "0.0 <= x < y", "x == y == z", "x > y > z", "-1.0 < x <= y <= 3.0", "a0 == (x > y)", "a0 != a1",
+    "bool(x)", "x > 0 and y", "x or y", "(x or y) > 1", "(x and y) == z", "a0 and x",
+]
+EXPRS_EXTRA = [
+    "x or y", "x and y", "a0 or x", "a0 and x", "not x", "x if x in (y, z) else 0.0", "float(a0)", "int(x)", "round(x)", "x ** 2", "(-x) ** 2.0", "x // y",
+    "x % y", "abs(-x)", "min(x, y, key=abs)", "max(x, y if a0 else z)", "x * a0", "a0 + a1", "bool(x) + 1", "x > y", "(x > y) + (y > z)", "x == y", "not a0",
+    "a0 - a1", "a0 * a1", "(x > y) * z",
+]
 HEAD = "def f(x, y, z, a0, a1, a2):\n"
 
 
@@ -394,6 +406,40 @@ def programs():
             yield "min-three-args", HEAD + f"    if {c}:\n        out = min(x, y, z)\n    else:\n        out = {e1}\n    return out\n"
 
 
+def programs_extra():
+    for c in CONDS_EXTRA:
+        for e1, e2 in itertools.product(EXPRS_SMALL, repeat=2):
+            yield "extra-cond-if-else-return", HEAD + f"    if {c}:\n        return {e1}\n    else:\n        return {e2}\n"
+            yield "extra-cond-ifexp", HEAD + f"    return {e1} if {c} else {e2}\n"
+        for e1 in EXPRS_TINY:
+            yield "extra-cond-assign-noelse", HEAD + f"    out = {e1}\n    if {c}:\n        out = y\n    return out\n"
+            for c2 in CONDS_TINY:
+                yield "extra-cond-elif", HEAD + f"    if {c2}:\n        return {e1}\n    elif {c}:\n        return z\n    else:\n        return 0.0\n"
+    for e in EXPRS_EXTRA:
+        yield "extra-expr-return", HEAD + f"    return {e}\n"
+        for c in CONDS_SMALL:
+            for e2 in EXPRS_TINY:
+                yield "extra-expr-if-else", HEAD + f"    if {c}:\n        out = {e}\n    else:\n        out = {e2}\n    return out\n"
+                yield "extra-expr-ifexp", HEAD + f"    return {e2} if {c} else {e}\n"
+
+
+_BOOLEAN_NAMES = {"a0", "a1", "a2"}
+
+
+def _is_boolean_expr(node):
+    if isinstance(node, ast.Name):
+        return node.id in _BOOLEAN_NAMES
+    if isinstance(node, ast.Constant):
+        return isinstance(node.value, bool)
+    if isinstance(node, ast.Compare):
+        return True
+    if isinstance(node, ast.UnaryOp) and isinstance(node.op, ast.Not):
+        return True
+    if isinstance(node, ast.BoolOp):
+        return all(_is_boolean_expr(v) for v in node.values)
+    return False
+
+
 def features(src):
     """Constructs with recorded mistranslations (used to give a mismatch a specific signature)."""
     feats = []
@@ -409,6 +455,21 @@ def features(src):
         if isinstance(node, ast.If) and len(node.body) == 1 and isinstance(node.body[0], ast.Assign) and node.orelse and len(node.orelse) == 1 \
                 and isinstance(node.orelse[0], ast.AugAssign):
             feats.append("assign-with-augassign-else")
+    # and / or with an operand that is not Boolean, used as a VALUE (not as the test of if / conditional expression / not / and / or):
+    # Python yields one of the operands, the array form yields a truth value
+    parents = {}
+    for node in ast.walk(tree):
+        for ch in ast.iter_child_nodes(node):
+            parents[ch] = node
+    for node in ast.walk(tree):
+        if isinstance(node, ast.BoolOp) and not all(_is_boolean_expr(v) for v in node.values):
+            par = parents.get(node)
+            in_test = (isinstance(par, (ast.If, ast.IfExp)) and par.test is node) or isinstance(par, ast.BoolOp) \
+                or (isinstance(par, ast.UnaryOp) and isinstance(par.op, ast.Not))
+            if not in_test:
+                feats.append("and-or-on-numbers-used-as-value")
+        if isinstance(node, ast.BinOp) and isinstance(node.op, (ast.Add, ast.Sub, ast.Mult)) and _is_boolean_expr(node.left) and _is_boolean_expr(node.right):
+            feats.append("arithmetic-on-two-booleans")
     return sorted(set(feats))
 
 
@@ -429,7 +490,7 @@ def task_grammar(arg):
     out = Partial()
     pts, cols = _grid()
     n = len(pts)
-    for idx, (form, src) in enumerate(programs()):
+    for idx, (form, src) in enumerate(itertools.chain(programs(), programs_extra())):
         if idx % nk != k:
             continue
         out.state(src)
